@@ -578,8 +578,8 @@ func init() {
 		Quick: 600, Thorough: 15000, Journal: true}, genEnumCase, checkPrefixEnum)
 	ev.Define("mutated", ev.Options{
 		Rule:  "valid encoding (1 in 12: of another type) put through 1–4 drawn mutations: model-guided field replacement by hostile/random values (counts, versions, varints, floats, ids), bit flip, byte set, truncate, append, delete, duplicate, insert; decoded through bytes.Reader or a one-byte plain io.Reader; same oracles plus reader-independence (error-ness and re-encoding). Non-trivial = past the version byte and ≥ 1 count field reached (fixed-layout types: not a plain valid encoding).",
-		Quick: 50000, Thorough: 1500000, Journal: true}, genMutated, checkBytesCase)
+		Quick: 50000, Thorough: 800000, Journal: true}, genMutated, checkBytesCase)
 	ev.Define("raw", ev.Options{
 		Rule:  "0–96 drawn bytes (half from a hostile byte set); 9 times in 10 behind a valid version header followed by drawn count fields (55% 0..9, 35% hostile constants, 5% up to 2^20, 5% arbitrary 64-bit); all ten decoders. Same oracles and non-trivial rule as 'mutated'.",
-		Quick: 30000, Thorough: 900000, Journal: true}, genRaw, checkBytesCase)
+		Quick: 30000, Thorough: 500000, Journal: true}, genRaw, checkBytesCase)
 }
